@@ -2,6 +2,7 @@ import HpxVerif.Model.C2V
 
 import HpxVerif.Lemmas.C2VReal
 import HpxVerif.Lemmas.EnvelopeReal6
+import HpxVerif.Lemmas.CellExtent4
 
 set_option autoImplicit false   -- an unknown identifier in a statement is an error, never a new variable
 
@@ -239,5 +240,52 @@ theorem f23_below_true_on_transition_ring (cfg : Cfg) (d hash b i j : ℕ) (hd1 
 
 
 end EquatorialEnvelope
+
+
+/-! ## the farthest point of an equatorial cell from its centre is a vertex; the envelope bounds every point of the cell -/
+
+section EquatorialGeometry
+open Hpx Hpx.Hash Hpx.C2V Hpx.C2VReal Hpx.Proj Hpx.Cover Hpx.CellReal Hpx.EnvelopeReal Hpx.TopoLift Hpx.CellExtent Real
+
+/-- **`eqr_cell_extent`** (T1).  Plane centre `(x, y)` with `0 ≤ x`, `x + δ ≤ 8` (as in `true_c2v_eqr`), `0 < δ ≤ 1`,
+    `|y| + δ ≤ 1` (the closed diamond of half-diagonal `δ` is in the equatorial region).  For EVERY plane point `(x', y')`
+    of the closed diamond `|x' − x| + |y' − y| ≤ δ` (abscissa reduced to `[0, 8)` by `norm8`, as `ensures_x_is_positive`
+    does): `unproj` succeeds on the centre and on the point, and the angular distance between the two positions is at most
+    the largest of the three centre-to-vertex distances `dN δ y`, `dS δ y`, `dE δ y` of `true_c2v_eqr`:
+    **the farthest point of the cell from its centre is a vertex.** -/
+theorem eqr_cell_extent (x y δ x' y' : ℝ) (hδ0 : 0 < δ) (hδ1 : δ ≤ 1) (hx0 : 0 ≤ x) (hx8 : x + δ ≤ 8)
+    (hy : |y| + δ ≤ 1) (hin : |x' - x| + |y' - y| ≤ δ) :
+    ∃ c p : ℝ × ℝ, unproj (α := ℝ) x y = some c ∧ unproj (α := ℝ) (norm8 x') y' = some p ∧
+      c.2 = latOf y ∧ p.2 = latOf y' ∧
+      adist c p ≤ max (dN δ y) (max (dS δ y) (dE δ y)) :=
+  Hpx.CellExtent.eqr_cell_extent x y δ x' y' hδ0 hδ1 hx0 hx8 hy hin
+
+/-- **`cell_extent_envelope`** (ℝ, release profile, every depth `1 … 29`, every cell `(b, i, j)` of the NESTED scheme whose
+    centre is strictly inside the equatorial band).  `center(d, hash)` succeeds, and for every position `(lon, latOf yp)`
+    of the cell (`|yp − cellCy| ≤ 1/n`, `|yp| < 1`) `largest_center_to_vertex_distance(d, lon, latOf yp)` returns a value
+    that bounds the angular distance from the centre to every position `(x'·π/4 + 2πm, latOf y')` of the closed diamond
+    of the cell. -/
+theorem cell_extent_envelope (cfg : Cfg) (d hash b i j : ℕ) (hd1 : 1 ≤ d) (hd2 : d ≤ 29) (hh : hash < Layer.nHash d)
+    (hdec : Layer.decodeHash cfg d hash = some ⟨b, i, j⟩) (hb : b < 12) (hi : i < 2 ^ d) (hj : j < 2 ^ d)
+    (hband : |cellCy d b i j| < 1) :
+    ∃ c : ℝ × ℝ, center (α := ℝ) cfg d hash = some c ∧
+      ∀ lon yp : ℝ, |yp - cellCy d b i j| ≤ 1 / 2 ^ d → |yp| < 1 →
+        ∃ v, largestC2V false d lon (latOf yp) = some v ∧
+          ∀ (x' y' : ℝ) (m : ℤ), InDiamond (cellCx d b i j) (cellCy d b i j) (1 / 2 ^ d) x' y' →
+            adist c (x' * (π / 4) + 2 * π * m, latOf y') ≤ v :=
+  Hpx.CellExtent.cell_extent_envelope cfg d hash b i j hd1 hd2 hh hdec hb hi hj hband
+
+/-- **`cell_extent_envelope_radius`**: the same with `largest_center_to_vertex_distance_with_radius(d, lon, lat, r)`,
+    depth `2 … 29`, any cone with `|lat| + r < tl` -/
+theorem cell_extent_envelope_radius (cfg : Cfg) (d hash b i j : ℕ) (hd1 : 2 ≤ d) (hd2 : d ≤ 29)
+    (hh : hash < Layer.nHash d) (hdec : Layer.decodeHash cfg d hash = some ⟨b, i, j⟩) (hb : b < 12) (hi : i < 2 ^ d)
+    (hj : j < 2 ^ d) (hband : |cellCy d b i j| < 1) (lon lat r : ℝ) (hA : |lat| + r < tl) :
+    ∃ (c : ℝ × ℝ) (v : ℝ), center (α := ℝ) cfg d hash = some c ∧ largestC2VWithRadius false d lon lat r = some v ∧
+      ∀ (x' y' : ℝ) (m : ℤ), InDiamond (cellCx d b i j) (cellCy d b i j) (1 / 2 ^ d) x' y' →
+        adist c (x' * (π / 4) + 2 * π * m, latOf y') ≤ v :=
+  Hpx.CellExtent.cell_extent_envelope_radius cfg d hash b i j hd1 hd2 hh hdec hb hi hj hband lon lat r hA
+
+
+end EquatorialGeometry
 
 end Hpx.C16
